@@ -144,12 +144,17 @@ func H_defspec() {
 		}
 	}
 	argsFirst := vParamInt("argsFirst") == 1 // arguments declared before the options
-	implicit := vRunTable(vAppCfg{spec: "", declMask: mask, policy: flag.ContinueOnError, wantHelp: true, envAll: withEnv, argEnv: withEnv, argsFirst: argsFirst}, argv)
+	withSub := vParamInt("withSub") == 1     // the command also has a sub-command
+	implApp := vBuildTable(vAppCfg{spec: "", declMask: mask, policy: flag.ContinueOnError, wantHelp: true, envAll: withEnv, argEnv: withEnv, argsFirst: argsFirst, withSub: withSub})
+	implicit := implApp.run(append([]string{"app"}, argv...))
+	// the same application object parses a second command line like the first one
+	again := implApp.run(append([]string{"app"}, argv...))
+	vAssert(vSameOutcome(implicit, again), "C16: running the same spec-less application a second time gives another outcome")
 	var expl vOutcome
 	if explicit == "" {
 		expl = implicit // the explicit spec of an empty declaration set is the empty spec itself
 	} else {
-		expl = vRunTable(vAppCfg{spec: explicit, declMask: mask, policy: flag.ContinueOnError, wantHelp: true, envAll: withEnv, argEnv: withEnv, argsFirst: argsFirst}, argv)
+		expl = vRunTable(vAppCfg{spec: explicit, declMask: mask, policy: flag.ContinueOnError, wantHelp: true, envAll: withEnv, argEnv: withEnv, argsFirst: argsFirst, withSub: withSub}, argv)
 	}
 	vObserveOutcome("implicit", implicit)
 	vObserveOutcome("explicit", expl)
@@ -163,6 +168,12 @@ func H_defspec() {
 	want := "\nUsage: app"
 	if explicit != "" {
 		want += " " + explicit
+	}
+	if withSub {
+		want += " COMMAND [arg...]"
+		for _, t := range argv {
+			vAssume(t != "k") // (routing to the sub-command is C04's business)
+		}
 	}
 	want += "\n\n"
 	vAssert(strings.HasPrefix(implicit.help, want), "C16: the usage line of a spec-less command does not show `[OPTIONS] ARG...`")
